@@ -406,3 +406,15 @@ async fn add_response_to_resources(
         }
     }
 }
+
+/// Verification hook: crate-visible wrapper around the async `add_response_to_resources`
+#[cfg(simple_dns_verif)]
+pub(crate) async fn verif_add_response_to_resources(
+    packet: Packet<'_>,
+    service_name: &Name<'_>,
+    full_name: &Name<'_>,
+    owned_resources: &mut ResourceRecordManager<'static>,
+    on_discovery: &mut Option<tokio::sync::mpsc::Sender<InstanceInformation>>,
+) {
+    add_response_to_resources(packet, service_name, full_name, owned_resources, on_discovery).await
+}
